@@ -228,7 +228,8 @@ def run(ctx):
                 "fact_store_in_memory_state", "fact_cache_touch", "fact_version_keys", "fact_copied_conditions",
                 "fact_modelled_source_unchanged", "fact_store_wiring", "deactivated_resolves_active_by_time_witness",
                 "fact_add_commits_index_before_event_transaction", "two_tx_add_needs_no_read_your_writes",
-                "two_tx_add_order_independent_on_committed_reads", "one_tx_add_order_dependent_witness"]
+                "two_tx_add_order_independent_on_committed_reads", "one_tx_add_order_dependent_witness",
+                "fact_event_list_read_modify_write_in_one_transaction", "overlapping_atomic_adds_commute", "stale_read_add_loses_update_witness"]
     for r in required:
         if not any(t.endswith("Props." + r) for t in thms):
             ctx.oblige("thm-present:" + r, False, "theorem missing or its module does not build")
@@ -309,6 +310,8 @@ def run(ctx):
                 feats["sub-second-times"] += 1
             if op.get("backend") == "redis":
                 feats["backend=redis(no read-your-writes inside a write tx)"] += 1
+            if any(c in (51, 52) for c in fl):
+                feats["two-overlapping-adds(forced schedule)"] += 1
             if any(c > 100 for c in fl):
                 feats["with-failing-shelf-operation"] += 1
             seen_ct = set()
@@ -418,7 +421,8 @@ def run(ctx):
                        "clock/time ties incl. ties below the second, republished identical documents, prevs naming foreign / unseen transactions, "
                        "shared service ids with different content), all permutations for <=5 events (capped) else random permutations, duplicates inserted "
                        "anywhere, Adds with an injected storage failure (first write tx, between the two, second rolled back, k-th shelf operation) followed "
-                       "by re-delivery, restarts mid-sequence; each sequence applied to a fresh real store — bbolt, or (every 5th sequence, every 2nd for <=4 events, "
+                       "by re-delivery, restarts mid-sequence, pairs of OVERLAPPING Adds under a forced schedule (one Add parked before its 1st / 2nd write "
+                       "transaction until the next arrival's Add has completed); each sequence applied to a fresh real store — bbolt, or (every 5th sequence, every 2nd for <=4 events, "
                        "and the whole corpus) go-stoabs redis7 on miniredis, whose write transactions do not see their own writes — observed through Resolve(nil / {} / "
                        "allowDeactivated / every event time and time-1ns / every payload hash / every source tx / random hash x time x source-tx x "
                        "allow-deactivated combinations / unknown values), ConflictedCount, DocumentCount, Conflicted() entries, Iterate() order + entries, "
